@@ -7,12 +7,15 @@ import sys
 import time
 
 from . import kani, regexshim
-from .common import BUILD, REPO, VERIF, log, read, repo_fingerprint, write
+from .common import BUILD, OUT, REPO, VERIF, log, read, repo_fingerprint, write
 from .findings import load_findings, match_finding
 from .props import PROPS
+from .gentypes import gen_types
+from . import genpages
 
 
 MAX_PLAYBACK = 2
+GLOBAL_GENERATORS = [gen_types, genpages.gen_pages]
 
 
 def tier_specs(prop, tier):
@@ -75,7 +78,7 @@ def write_evidence(pid, tier, seed, prop, results, extra, wall, violations, stat
         "wall_s": round(wall, 2),
         "violations": violations,
     }
-    write(os.path.join(VERIF, "evidence", pid + ".json"), json.dumps(ev, indent=1))
+    write(os.path.join(OUT, "evidence", pid + ".json"), json.dumps(ev, indent=1))
 
 
 def run_selftest(work):
@@ -99,10 +102,11 @@ def check_property(pid, tier, seed, do_playback=True):
     shim_info, shim_err = regexshim.generate_shim()
     if shim_err and prop.needs_regex:
         inconclusive.append(shim_err)
-    for g in prop.generators:
+    for g in GLOBAL_GENERATORS + [x for x in prop.generators if x not in GLOBAL_GENERATORS]:
         out = g(tier, seed)
         if out.get("error"):
-            inconclusive.append("generator %s: %s" % (g.__name__, out["error"]))
+            if g in prop.generators:
+                inconclusive.append("generator %s: %s" % (g.__name__, out["error"]))
         gen.update(out.get("files", {}))
         if out.get("obligation"):
             extra.append(out["obligation"])
@@ -113,7 +117,8 @@ def check_property(pid, tier, seed, do_playback=True):
     self_spec = kani.H("selftest::must_fail", "pipeline self-test (deliberately false twin)", unwind=2, timeout=300)
     results = []
     if specs:
-        infos, out = kani.codegen(prop.filters + ["selftest::"], os.path.join(work, "goto"))
+        filters = [h.name for h in specs] if len(specs) <= 150 else prop.filters
+        infos, out = kani.codegen(filters + ["selftest::"], os.path.join(work, "goto"))
         if infos is None:
             log(out[-6000:])
             inconclusive.append("kani codegen failed (harness crate does not compile against this tree?)")
@@ -142,7 +147,7 @@ def check_property(pid, tier, seed, do_playback=True):
         if r.verdict == "inconclusive":
             inconclusive.append("%s: %s" % (r.spec.name, r.reason))
         elif r.verdict == "candidate":
-            rp = os.path.join(VERIF, "replays", pid, r.spec.name.replace("::", "__") + ".json")
+            rp = os.path.join(OUT, "replays", pid, r.spec.name.replace("::", "__") + ".json")
             pb = {"reproduced": None}
             n_cand += 1
             if do_playback and n_cand > MAX_PLAYBACK:
@@ -226,7 +231,7 @@ def replay(path):
     os.makedirs(work, exist_ok=True)
     gen = {}
     regexshim.generate_shim()
-    for g in prop.generators:
+    for g in GLOBAL_GENERATORS + list(prop.generators):
         gen.update(g("quick", 0).get("files", {}))
     kani.gen_crate(gen)
     infos, out = kani.codegen([hname], os.path.join(work, "goto"))
